@@ -16,7 +16,7 @@ ANCHORS = ["decaylanguage.dec.dec:DecayModelAliasReplacement._replacement", "dec
            "decaylanguage.dec.dec:DecayModelParamValueReplacement._replacement", "decaylanguage.dec.dec:DecFileParser._dict_raw_model_aliases",
            "decaylanguage.dec.dec:get_definitions", "decaylanguage.dec.dec:get_model_aliases"]
 WORKERS = {"quick": 4, "thorough": 16}
-REQUIRED = {"file-constructor:2-part-files": 10, "file-constructor:pathlib-path-arguments": 10, "parsed-with-warnings-as-errors:no-warning-surfaced": 10, "alias-used-in>=2-blocks": 20, "alias-with-defined-param-used-in>=2-blocks": 10, "alias-used>=2x-in-one-block": 10, "definition-after-use": 20,
+REQUIRED = {"parse-again-after-an-abandoned-parse:answered": 5, "parse-after-a-text-the-grammar-refused-half-way": 10, "file-constructor:2-part-files": 10, "file-constructor:pathlib-path-arguments": 10, "parsed-with-warnings-as-errors:no-warning-surfaced": 10, "alias-used-in>=2-blocks": 20, "alias-with-defined-param-used-in>=2-blocks": 10, "alias-used>=2x-in-one-block": 10, "definition-after-use": 20,
             "redefinition:Define": 20, "redefinition:ModelAlias": 10, "negated-use": 20, "negated-use-of-negative-value": 5, "plus-prefixed-word-stays": 10,
             "undefined-word-stays": 20, "use-in-copied-table": 10, "use-in-conjugated-table": 10, "define-used>=4x": 10, "expanded-text-parsed": 50,
             "alias-with-photos": 5, "define-unused": 5, "second-parse-same-instance": 20, "user-model-registered": 20, "alias-name-extends-a-published-model-name": 20}
